@@ -63,6 +63,30 @@ pub fn bundles() -> Vec<(String, SpendBundle)> {
     v.push(("empty".into(), SpendBundle::new(vec![], Signature::default())));
     v.push(("two-spends".into(), SpendBundle::new(vec![spend(1, 1000, solution_for(1000, 10)), spend(2, 0x8000, solution_for(0x8000, 0x7fff))], Signature::default())));
     v.push(("five-similar-spends".into(), SpendBundle::new((1..=5).map(|i| spend(i, 5000, solution_for(5000, 100 + i as u64))).collect(), Signature::default())));
+    // bundles whose LAST charged condition is of each cost class (the exact-limit obligations below then sit on that class's test)
+    {
+        fn atom(b: &[u8]) -> Vec<u8> {
+            if b.is_empty() { return vec![0x80]; }
+            if b.len() == 1 && b[0] < 0x80 { return vec![b[0]]; }
+            let mut v = if b.len() < 0x40 { vec![0x80 | b.len() as u8] } else { vec![0xc0 | (b.len() >> 8) as u8, b.len() as u8] };
+            v.extend_from_slice(b);
+            v
+        }
+        fn cond(items: &[Vec<u8>]) -> Vec<u8> { let mut v = vec![0xff]; for (i, it) in items.iter().enumerate() { if i > 0 { v.push(0xff); } v.extend(atom(it)); } v.push(0x80); v }
+        fn list(conds: &[Vec<u8>]) -> Vec<u8> { let mut v = vec![]; for c in conds { v.push(0xff); v.extend_from_slice(c); } v.push(0x80); v }
+        let ph = clvm_utils::tree_hash_atom(&[1u8]).to_bytes().to_vec();
+        let pk = chia_bls::SecretKey::from_seed(&[9; 32]).public_key().to_bytes().to_vec();
+        let amt = vec![0x03, 0xe8];
+        let my_amount = cond(&[vec![73], amt.clone()]);
+        let create = cond(&[vec![51], vec![9u8; 32], vec![100]]);
+        let aggsig = cond(&[vec![49], pk, b"hello".to_vec()]);
+        let send = cond(&[vec![66], vec![0b01_0010], b"hi".to_vec(), ph.clone()]);
+        let recv = cond(&[vec![67], vec![0b01_0010], b"hi".to_vec(), ph.clone()]);
+        v.push(("last-generic".into(), SpendBundle::new(vec![spend(1, 1000, list(&[create.clone(), my_amount.clone()]))], Signature::default())));
+        v.push(("last-aggsig".into(), SpendBundle::new(vec![spend(1, 1000, list(&[my_amount.clone(), aggsig]))], Signature::default())));
+        v.push(("last-message".into(), SpendBundle::new(vec![spend(1, 1000, list(&[my_amount.clone(), send, recv]))], Signature::default())));
+        v.push(("last-create-coin".into(), SpendBundle::new(vec![spend(1, 1000, list(&[my_amount, create]))], Signature::default())));
+    }
     // the spend-count limit of the mempool mode (LIMIT_SPENDS): 6000 spends are admitted, 6001 are not
     for n in [6000usize, 6001] {
         v.push((format!("spends-{n}"), SpendBundle::new((0..n).map(|i| {
@@ -120,7 +144,8 @@ pub fn check_bundle(name: &str, b: &SpendBundle, interned: bool) -> (u64, Vec<(S
     }
     // verdicts the rules prescribe for the mempool path
     for (bn, want) in [("spends-6000", true), ("spends-6001", false), ("amount-0x8000000000000000", true), ("amount-0xffffffffffffffff", true),
-                       ("two-spends", true), ("wrong-my-amount", false), ("minting", false), ("empty", true)] {
+                       ("two-spends", true), ("wrong-my-amount", false), ("minting", false), ("empty", true),
+                       ("last-generic", true), ("last-aggsig", true), ("last-message", true), ("last-create-coin", true)] {
         if name == bn {
             n += 1;
             if mem.is_ok() != want { fails.push((format!("{name}/{tag}/mempool-verdict"), format!("run_spendbundle accepted = {}, the rules say {want}", mem.is_ok()))); }
